@@ -16,6 +16,14 @@
 #endif
 #define NTOT ( VERIF_T * NOPS )
 
+#if CLEANER
+// a value_cleaner that really does something (like the destructor of a non-trivial T would) and contains one atomic
+// operation, i.e. one context-switch point: a cell released to producers before it was cleaned loses the new item
+static atomics::atomic<int> cleaner_marker;
+struct poison_cleaner {
+    template <typename T> void operator()( T& v ) const { cleaner_marker.fetch_add( 1, atomics::memory_order_relaxed ); v = T( 0xDEAD ); }
+};
+#endif
 struct q_traits : public cds::container::vyukov_queue::traits {
 #if DYNAMIC_BUFFER
     typedef cds::opt::v::uninitialized_dynamic_buffer< void * > buffer;
@@ -26,8 +34,30 @@ struct q_traits : public cds::container::vyukov_queue::traits {
 #if ITEM_COUNTER
     typedef cds::atomicity::item_counter item_counter;
 #endif
+#if CLEANER
+    typedef poison_cleaner value_cleaner;
+#endif
+#if SINGLE_CONSUMER
+    static constexpr bool const single_consumer = true;
+#endif
 };
+#if INTRUSIVE
+#include <cds/intrusive/vyukov_mpmc_cycle_queue.h>
+struct iitem { uint32_t v; };
+struct iq_traits : public cds::intrusive::vyukov_queue::traits {
+#if DYNAMIC_BUFFER
+    typedef cds::opt::v::uninitialized_dynamic_buffer< void * > buffer;
+#else
+    typedef cds::opt::v::uninitialized_static_buffer< void *, CAP > buffer;
+#endif
+    typedef cds::backoff::empty back_off;
+};
+typedef cds::intrusive::VyukovMPMCCycleQueue< iitem, iq_traits > queue_t;
+static iitem pool_items[64];
+static unsigned pool_next;
+#else
 typedef cds::container::VyukovMPMCCycleQueue< uint32_t, q_traits > queue_t;
+#endif
 
 struct fifo_spec {
     uint32_t a[CAP]; unsigned n;
@@ -50,8 +80,18 @@ static uint8_t kinds[NTOT];
 static fifo_spec init_state;
 static uint32_t next_val = 100;
 
+#if INTRUSIVE
+static __attribute__((noinline)) bool do_enq( uint32_t v ) { iitem * it = &pool_items[pool_next++]; it->v = v; return Q->enqueue( *it ); }
+static __attribute__((noinline)) bool do_deq( uint32_t& v ) { iitem * it = Q->dequeue(); if ( it ) v = it->v; return it != nullptr; }
+#else
 static __attribute__((noinline)) bool do_enq( uint32_t v ) { return Q->enqueue( v ); }
+#if SINGLE_CONSUMER
+// the single consumer uses front() + pop_front()
+static __attribute__((noinline)) bool do_deq( uint32_t& v ) { uint32_t * p = Q->front(); if ( !p ) return false; v = *p; bool ok = Q->pop_front(); VASSERT( ok, "pop_front() succeeds after front() returned an item (single consumer)" ); return true; }
+#else
 static __attribute__((noinline)) bool do_deq( uint32_t& v ) { return Q->dequeue( v ); }
+#endif
+#endif
 
 static void client( unsigned t )
 {
@@ -69,10 +109,13 @@ HFN void h_setup()
     Q = &the_queue;
     VASSERT( Q->capacity() == CAP, "capacity as configured" );
     unsigned rot = ROTMAX /* constant per query: position counters stay concrete */, pre = (unsigned) nondet_range( 0, CAP );
-    for ( unsigned i = 0; i < ROTMAX; ++i ) if ( i < rot ) { uint32_t v = 0; bool a = Q->enqueue( 7 ), b = Q->dequeue( v ); VASSERT( a && b && v == 7, "setup cycle" ); }
+    for ( unsigned i = 0; i < ROTMAX; ++i ) if ( i < rot ) { uint32_t v = 0; bool a = do_enq( 7 ), b = do_deq( v ); VASSERT( a && b && v == 7, "setup cycle" ); }
     init_state.n = 0;
-    for ( unsigned i = 0; i < CAP; ++i ) if ( i < pre ) { uint32_t v = next_val++; bool a = Q->enqueue( v ); VASSERT( a, "setup fill" ); init_state.a[init_state.n++] = v; }
+    for ( unsigned i = 0; i < CAP; ++i ) if ( i < pre ) { uint32_t v = next_val++; bool a = do_enq( v ); VASSERT( a, "setup fill" ); init_state.a[init_state.n++] = v; }
     for ( unsigned i = 0; i < NTOT; ++i ) kinds[i] = nondet_bool() ? 1 : 0;
+#if SINGLE_CONSUMER
+    for ( unsigned i = 0; i < NTOT; ++i ) kinds[i] = ( i / NOPS == VERIF_T - 1 ) ? 1 : 0;      // last thread is THE consumer, the others produce
+#endif
 }
 HFN void h_thread1() { client( 0 ); }
 HFN void h_thread2() { client( 1 ); }
@@ -88,7 +131,7 @@ HFN void h_check()
     unsigned enq_ok = 0, deq_ok = 0;
     for ( unsigned i = 0; i < NTOT; ++i ) { if ( ops[i].ok ) { if ( ops[i].kind == 0 ) ++enq_ok; else ++deq_ok; } }
     unsigned left = 0; uint32_t v;
-    for ( unsigned i = 0; i < CAP + 1; ++i ) if ( Q->dequeue( v )) ++left;
+    for ( unsigned i = 0; i < CAP + 1; ++i ) if ( do_deq( v )) ++left;
     VASSERT( init_state.n + enq_ok == deq_ok + left, "items are conserved (none lost, none invented)" );
 #if ITEM_COUNTER
     VASSERT( Q->size() == 0 && Q->empty(), "size()/empty() agree after draining" );
